@@ -30,9 +30,14 @@ def fams(tier):
         progs += [("set|put|get,get", [[s(1)], [p(2)], [g, g]]), ("ensure|ensure|ensure", [[e(1)], [e(2)], [e(3)]]),
                   ("put,set|put,get|touch", [[p(1), s(3)], [p(2), g], [t]])]
     out = []
+    # "nodir": the cache directory itself does not exist yet; the values are staged outside it, so
+    # every writer's first publication fails with ENOENT and goes through the mkdir-and-retry path
+    nodir_names = ("put,get|put,get", "put,get|set,get", "set,get|set,get", "touch,get|put")
     for name, parts in progs:
-        for pre, setup in (("absent", base), ("present", present)):
+        for pre, setup in (("absent", base), ("present", present), ("nodir", list(cfg))):
             if pre == "present" and name.startswith("ensure|"):
+                continue
+            if pre == "nodir" and name not in nodir_names:
                 continue
             out.append({"name": "plain:%s/%s" % (name, pre), "kind": "plain", "w": w, "cfg": cfg, "setup": setup, "parts": parts, "fire": None,
                         "values": {K.fnv_show(v) for v in list(V.values()) + ["V0V0V0"]}, "initial": "V0V0V0" if pre == "present" else None,
